@@ -30,6 +30,7 @@ REQUIRED = {**{r: 10 for r in R_ALL}, "isolated:R5-crlf": 2, "isolated:R10-bom":
 ASSUMPTIONS = ["parameter-list wrapping only on non-empty lists; file splits only between top-level statements; string inputs end with a newline",
                "warnings are recorded, not compared; absent parameter list '' == []"]
 DEFAULT_CFG = None
+PART_NAMES = ["generic.dec", "custom.dec", "part10.dec", "part2.dec", "Zfirst.dec", "a_last.dec", "m.dec", "B.dec", "part1.dec", "0.dec", "_x.dec", "k.dec"]
 TAILS = [{"k": "Alias", "a": "MyTail", "b": b} for b in ("Upsilon", "Mydeuteron", "phiE", "dEnd", "nEd", "K'", "x*", "p~", "f(2)", "a.", "b_", "c/", "D0", "pi+", "K-")] + [
     {"k": "Pythia", "cmd": "PythiaBothParam", "mod": "ParticleDecays", "par": "mixB", "value": "on", "sp": (" ", " ")},
     {"k": "ChargeConj", "a": "Myanti-deuteron", "b": "Mydeuteron"}]
@@ -65,7 +66,7 @@ def parse_variant(variant, um):
     try:
         paths = []
         for i, (content, bom) in enumerate(zip(variant["files"], variant["bom"])):
-            pth = os.path.join(d, f"part{i}.dec")
+            pth = os.path.join(d, PART_NAMES[i % len(PART_NAMES)] if i < len(PART_NAMES) else f"zz{i}.dec")     # names that do not sort in the order given
             with open(pth, "wb") as f:
                 f.write((b"\xef\xbb\xbf" if bom else b"") + content.encode("utf-8"))
             paths.append(pth)
